@@ -9,7 +9,7 @@ use std::cell::RefCell;
 use std::sync::Arc;
 
 pub mod frim;
-pub mod bmp_sm;
+pub mod bmp_io;
 pub mod c17;
 pub mod ingress;
 pub mod codec;
